@@ -26,7 +26,7 @@ def run(tier, seed):
     # ---------------- T-gen (whole readers): the program translated from every generated reader must be the normal form of its definition's
     # program (lib/readertie.py; Thm/C01b.lean); here: the differences that concern enum validation (missing / other domain / other width / cast)
     import readertie
-    po_b = proof_obligations("WowVerif.Thm.C01b")
+    po_b = proof_obligations("WowVerif.Thm.C01c")       # reader_decodes_as_spec: a reader that matches rejects exactly what the definition's decoder rejects
     add_proof_failures(rep, po_b)
     tie_cov = readertie.report(rep, PID, readertie.compute())
     d = Driver()
